@@ -320,8 +320,8 @@ def _compute(ctx):
                     continue
                 nt = e.ntarget or ""
                 if not (nt.startswith("atomic::Atomic::") or nt.startswith("std::sync::atomic::Atomic::") or
-                        nt.startswith(RA) or nt.startswith(AE)):
-                    continue
+                        nt.startswith(RA) or nt.startswith(AE) or e.target in WR):
+                    continue      # (a sibling wrapper counts: `store` written as `self.swap(ptr, order)`)
                 oa = [strip(a) for a in e.args if ord_of(a) is not None or
                       (isinstance(strip(a), tuple) and strip(a)[0] == "arg" and strip(a)[1] in used)]
                 for k, a in enumerate(oa):
